@@ -160,11 +160,11 @@ impl<const N: u32> PxE2<{ N }> {
                     exp += 1;
                 }
 
-                let frac_length = (N - 4) as isize - (reg as isize);
+                let frac_length = N as isize - 4 - (reg as isize);
 
                 if frac_length < 0 {
                     //in both cases, reg=29 and 30, e is n+1 bit and frac are sticky bits
-                    if reg == N - 3 {
+                    if reg + 3 == N {
                         bit_n_plus_one = (exp & 0x1) != 0;
                         //exp>>=1; //taken care of by the pack algo
                         exp &= 0x2;
@@ -189,7 +189,7 @@ impl<const N: u32> PxE2<{ N }> {
                 }
 
                 u32_with_sign(
-                    if reg > (N - 2) {
+                    if reg + 2 > N {
                         if reg_s {
                             0x_7FFF_FFFF & Self::mask()
                         } else {
@@ -239,10 +239,10 @@ impl<const N: u32> PxE2<{ N }> {
                 exp += 1;
             }
 
-            let frac_length = (N - 4) as isize - (reg as isize);
+            let frac_length = N as isize - 4 - (reg as isize);
             if frac_length < 0 {
                 //in both cases, reg=29 and 30, e is n+1 bit and frac are sticky bits
-                if reg == N - 3 {
+                if reg + 3 == N {
                     bit_n_plus_one = (exp & 0x1) != 0;
                     //exp>>=1; //taken care of by the pack algo
                     exp &= 0x2;
@@ -267,7 +267,7 @@ impl<const N: u32> PxE2<{ N }> {
             }
 
             u32_with_sign(
-                if reg > (N - 2) {
+                if reg + 2 > N {
                     if reg_s {
                         0x_7FFF_FFFF & Self::mask()
                     } else {
